@@ -277,6 +277,17 @@ class VecTrack:
                 continue
             init = [x for x in v.get('inner', []) if x.get('kind') not in ('FullComment',)]
             ty = v['type'].get('qualType', '').rstrip()
+            if init and unwrap(init[0]).get('kind') == 'LambdaExpr':
+                # a lambda variable (its calls are mapped by the spec): it must not touch tracked vectors and must be
+                # free of side effects on modelled objects, so that a call can be replaced by its (unknown) result
+                lam = unwrap(init[0])
+                body = [c for c in lam.get('inner', []) if c.get('kind') == 'CompoundStmt']
+                for b in body:
+                    if self.underlying(P, b):
+                        raise Unsupported(f'lambda {v["name"]} uses tracked vectors (extract it as a function of its own)')
+                    P.check_pure(b, f'body of lambda {v["name"]}')
+                out += P.vardecl(v, p)
+                continue
             w = self.collect(P, init[0], [], []) if init else []
             if self.is_tracked_type(v['type']):
                 if ty.endswith('&'):
